@@ -16,16 +16,18 @@ ASSUME_COMMON = [
 ]
 
 
-def tie(theorems, modules=("Qvnt.Lemmas.GenKernels",), audit="Qvnt/Audit/Gen.lean", sources=".*"):
+def tie(theorems, modules=("Qvnt.Lemmas.GenCore", "Qvnt.Lemmas.GenKernels"), audit="Qvnt/Audit/Gen.lean", sources=".*"):
     """translation tie: the Rust functions translated by tools/rs2lean.py on every run are proved equal to
     the hand-written model by the theorems of `modules` whose names match `theorems`"""
     return {"modules": list(modules), "theorems": theorems, "audit": audit, "sources": sources}
 
 
-def tie2(theorems, sources):
-    """second translator (tools/rs2lean2.py -> Generated/Regs.lean), equalities in Lemmas/GenRegs2.lean"""
-    return {"translator": "rs2lean2", "modules": ["Qvnt.Lemmas.GenRegs2"], "theorems": theorems,
-            "audit": "Qvnt/Audit/GenRegs2.lean", "sources": sources}
+def tie2(theorems, sources, creg=False):
+    """second translator (tools/rs2lean2.py -> Generated/Regs.lean), equalities in Lemmas/GenRegs2.lean and, for the
+    functions that involve the classical register (measure_mask, reset_by_mask, get_by_mask, *, *=, sym.rs), GenRegs3.lean"""
+    mods = ["Qvnt.Lemmas.GenRegs2"] + (["Qvnt.Lemmas.GenRegs3"] if creg else [])
+    return {"translator": "rs2lean2", "modules": mods, "theorems": theorems,
+            "audit": ["Qvnt/Audit/GenRegs2.lean"] + (["Qvnt/Audit/GenRegs3.lean"] if creg else []), "sources": sources}
 
 
 TB_TIE2 = "translator tools/rs2lean2.py (collection-level Rust subset: iterator pipelines over Vec/VecDeque as lists, &mut methods as state-passing functions, loops with fuel, Option for unwrap/unreachable, `match self.th` reduced to the sequential arm after checking that the parallel arm is its rayon twin, random draws as inputs; regenerates Generated/Regs.lean from src/register/quant.rs, src/operator/{single,multi}/mod.rs, src/operator/multi/h.rs, src/operator/mod.rs and src/operator/single/{pauli,rotate,swap}.rs (public constructors), src/math/bits_iter.rs, src/register/{class,virtl}.rs, src/qasm/int/ext_op.rs on every run; Lemmas/GenRegs2.lean proves every translated function equal to the model definition) - the translator and the dozen list combinators of Model/RustStd.lean are trusted, the output is not"
@@ -50,7 +52,7 @@ def tech_tie(part):
 PROPS = {
     "C05": {
         "modules": ["Qvnt.Props.C05"],
-        "tie": [tie(r".*_op_eq|rotate_eq|negWord_eq|forEach_eq", sources=r"UNSUPPORTED (?!class\.rs|dispatch\.rs: dispatch\.rs::for_each_par)"), tie2(r"quant_\w+_eq|multi_apply_eq|single_apply_eq|parTwins_all", r"UNSUPPORTED (quant\.rs|mod\.rs: operator/(single|multi)/mod\.rs::apply)")],
+        "tie": [tie(r".*_op_eq|rotate_eq|negWord_eq|forEach_eq", sources=r"UNSUPPORTED (\w+\.rs: \w+\.rs::(atomic_op|struct)|math/mod\.rs|dispatch\.rs: dispatch\.rs::for_each:)"), tie2(r"quant_\w+_eq|multi_apply_eq|single_apply_eq|parTwins_all", r"UNSUPPORTED (quant\.rs|mod\.rs: operator/(single|multi)/mod\.rs::apply)", creg=True)],
         "suites": [suite("hist", dict(count=400, max_n=5, steps=14), dict(count=4000, max_n=8, steps=200)),
                    suite("intnu", dict(count=150), dict(count=3000))],
         "mismatch_tags": [r"measure.*", r"resetmask", r"setnum.*", r"tensor.*", r"reset", r"probs", r"qstate", r"q2state"],
@@ -64,7 +66,7 @@ PROPS = {
     },
     "C06": {
         "modules": ["Qvnt.Props.C06"],
-        "tie": [tie2(r"quant_(collapse_mask|rescale|measure_mask|measure|get_absolute|get_probabilities)_eq|creg_new_eq", r"UNSUPPORTED quant\.rs: register/quant\.rs::(collapse_mask|rescale|measure_mask|measure|get_absolute|get_probabilities):")],
+        "tie": [tie2(r"quant_(collapse_mask|rescale|measure_mask|measure|get_absolute|get_probabilities)_eq|creg_new_eq", r"UNSUPPORTED quant\.rs: register/quant\.rs::(collapse_mask|rescale|measure_mask|measure|get_absolute|get_probabilities):", creg=True)],
         "suites": [suite("meas", dict(count=500, max_n=6), dict(count=15000, max_n=10))],
         "mismatch_tags": [r"measure.*"],
         "spec_tags": [r"c06\..*"],
@@ -77,7 +79,7 @@ PROPS = {
     },
     "C07": {
         "modules": ["Qvnt.Props.C07"],
-        "tie": [tie2(r"quant_(get_probabilities|get_absolute|measure_mask|collapse_mask|rescale|sample_all)_eq|proposal_eq", r"UNSUPPORTED quant\.rs: register/quant\.rs::(collapse_mask|rescale|measure_mask|get_absolute|get_probabilities|sample_all):")],
+        "tie": [tie2(r"quant_(get_probabilities|get_absolute|measure_mask|collapse_mask|rescale|sample_all)_eq|proposal_eq", r"UNSUPPORTED quant\.rs: register/quant\.rs::(collapse_mask|rescale|measure_mask|get_absolute|get_probabilities|sample_all):", creg=True)],
         "suites": [suite("meas", dict(count=200, max_n=5), dict(count=4000, max_n=8)),
                    suite("born", dict(count=12, shots=2048), dict(count=300, shots=16384))],
         "mismatch_tags": [r"probs", r"measure.*"],
@@ -104,7 +106,7 @@ PROPS = {
     },
     "C11": {
         "modules": ["Qvnt.Props.C11"],
-        "tie": [tie(r"creg_(set|xor|reset|get)_eq|notW_eq", modules=("Qvnt.Lemmas.GenRegs",), audit="Qvnt/Audit/GenRegs.lean", sources=r"UNSUPPORTED class\.rs"), tie2(r"creg_get_by_mask_eq|quant_(reset_by_mask|measure_mask|reset)_eq|bitsList_eq", r"UNSUPPORTED (quant\.rs: register/quant\.rs::(reset_by_mask|measure_mask|reset):|class\.rs|bits_iter\.rs)"), tie2(r"extop_(push|append)_eq", r"UNSUPPORTED ext_op\.rs")],
+        "tie": [tie(r"creg_(set|xor|reset|get)_eq|notW_eq", modules=("Qvnt.Lemmas.GenRegs",), audit="Qvnt/Audit/GenRegs.lean", sources=r"UNSUPPORTED class\.rs"), tie2(r"creg_get_by_mask_eq|quant_(reset_by_mask|measure_mask|reset)_eq|bitsList_eq|sym_(finish|step|reset)_eq|store_(set|xor)_eq|finish_as_foldlM|mstep_inv", r"UNSUPPORTED (quant\.rs: register/quant\.rs::(reset_by_mask|measure_mask|reset):|class\.rs|bits_iter\.rs|sym\.rs)", creg=True), tie2(r"extop_(push|append)_eq", r"UNSUPPORTED ext_op\.rs")],
         "suites": [suite("intnu", dict(count=600), dict(count=20000))],
         "mismatch_tags": INT_STRUCT,
         "spec_tags": [r"refsem\.(psi|creg|run)", r"c11\..*", r"iexpect\.accept"],
@@ -130,7 +132,7 @@ PROPS = {
     },
     "C17": {
         "modules": ["Qvnt.Props.C17"],
-        "tie": [tie2(r"extop_(push|append)_eq", r"UNSUPPORTED ext_op\.rs")],
+        "tie": [tie2(r"extop_(push|append)_eq|sym_(finish|step|reset)_eq|finish_as_foldlM", r"UNSUPPORTED (ext_op\.rs|sym\.rs)", creg=True)],
         "suites": [suite("c17", dict(count=300), dict(count=10000))],
         "mismatch_tags": INT_STRUCT,
         "spec_tags": [r"isame", r"iexpect\.asts"],
@@ -183,7 +185,7 @@ PROPS = {
     },
     "C10": {
         "modules": ["Qvnt.Props.C10"],
-        "tie": [tie2(r"extop_(push|append)_eq", r"UNSUPPORTED ext_op\.rs")],
+        "tie": [tie2(r"extop_(push|append)_eq|sym_(finish|step|reset)_eq|finish_as_foldlM", r"UNSUPPORTED (ext_op\.rs|sym\.rs)", creg=True)],
         "suites": [suite("int", dict(count=500), dict(count=15000)), suite("c10e", dict(count=300), dict(count=6000)),
                    suite("c10f", dict(count=400), dict(count=12000))],
         "mismatch_tags": INT_STRUCT,
@@ -209,7 +211,7 @@ PROPS = {
     },
     "C15": {
         "modules": ["Qvnt.Props.C15"],
-        "tie": [tie2(r"h_(loop|h)_eq|op_h_eq", r"UNSUPPORTED (h\.rs|mod\.rs: operator/mod\.rs::h:)")],
+        "tie": [tie2(r"h_(loop|h)_eq|op_h_eq|qft_qft(_swapped)?_eq|op_qft(_swapped)?_eq|swapped_loop_eq|vec_eq", r"UNSUPPORTED (h\.rs|qft\.rs|mod\.rs: operator/mod\.rs::(h|qft|qft_swapped):|rotate\.rs: operator/single/rotate\.rs::rz:|swap\.rs: operator/single/swap\.rs::swap:)")],
         "suites": [suite("dft", dict(count=500, max_n=6), dict(count=6000, max_n=9))],
         "mismatch_tags": None,
         "spec_tags": [r"dft"],
@@ -222,7 +224,7 @@ PROPS = {
     },
     "C14": {
         "modules": ["Qvnt.Props.C14"],
-        "tie": [tie(r"creg_(tensor_prod|with_state|set_num|mask_of|num)_eq", modules=("Qvnt.Lemmas.GenRegs",), audit="Qvnt/Audit/GenRegs.lean", sources=r"UNSUPPORTED class\.rs"), tie2(r"quant_(new|with_state|set_num|reset|tensor_prod|get_probabilities)_eq|creg_(mul|mul_assign|new)_eq", r"UNSUPPORTED (quant\.rs: register/quant\.rs::(new|with_state|set_num|reset|tensor_prod|get_probabilities):|class\.rs)")],
+        "tie": [tie(r"creg_(tensor_prod|with_state|set_num|mask_of|num)_eq", modules=("Qvnt.Lemmas.GenRegs",), audit="Qvnt/Audit/GenRegs.lean", sources=r"UNSUPPORTED class\.rs"), tie2(r"quant_(new|with_state|set_num|reset|tensor_prod|get_probabilities)_eq|creg_(mul|mul_assign|new)_eq", r"UNSUPPORTED (quant\.rs: register/quant\.rs::(new|with_state|set_num|reset|tensor_prod|get_probabilities):|class\.rs)", creg=True)],
         "suites": [suite("reg", dict(count=500, max_n=6), dict(count=10000, max_n=9))],
         "mismatch_tags": [r"qobs.*", r"tensor.*", r"setnum.*", r"probs", r"polar", r"qvreg", r"creg", r"ctensor", r"cmulassign", r"qstate", r"q2state", r"q2reg"],
         "spec_tags": [r"c14\..*"],
@@ -248,7 +250,7 @@ PROPS = {
     },
     "C20": {
         "modules": ["Qvnt.Props.C20"],
-        "tie": [tie(r"creg_.*_eq|notW_eq", modules=("Qvnt.Lemmas.GenRegs",), audit="Qvnt/Audit/GenRegs.lean", sources=r"UNSUPPORTED class\.rs"), tie2(r"bits_(from|next)_eq|bitsCollect_eq|bitsList_eq|creg_(get_by_mask|mul|mul_assign|new)_eq|h_(loop|h)_eq|vreg_\w+_eq|quant_get_vreg(_by)?_eq", r"UNSUPPORTED (bits_iter\.rs|class\.rs|h\.rs|virtl\.rs|quant\.rs: register/quant\.rs::get_vreg)")],
+        "tie": [tie(r"creg_.*_eq|notW_eq", modules=("Qvnt.Lemmas.GenRegs",), audit="Qvnt/Audit/GenRegs.lean", sources=r"UNSUPPORTED class\.rs"), tie2(r"bits_(from|next)_eq|bitsCollect_eq|bitsList_eq|creg_(get_by_mask|mul|mul_assign|new)_eq|h_(loop|h)_eq|vreg_\w+_eq|quant_get_vreg(_by)?_eq", r"UNSUPPORTED (bits_iter\.rs|class\.rs|h\.rs|virtl\.rs|quant\.rs: register/quant\.rs::get_vreg)", creg=True)],
         "suites": [
             suite("bits", dict(count=500, timeout=60), dict(count=20000, timeout=600)),
         ],
@@ -292,7 +294,7 @@ PROPS = {
     },
     "C03": {
         "modules": ["Qvnt.Props.C03"],
-        "tie": [tie(r".*_(dgr|op)_eq|rotate_eq|negWord_eq", sources=r"UNSUPPORTED (?!class\.rs|dispatch\.rs)"), tie2(r"single_dgr_eq|multi_dgr_eq", r"UNSUPPORTED mod\.rs: operator/(single|multi)/mod\.rs::dgr")],
+        "tie": [tie(r".*_(dgr|op)_eq|rotate_eq|negWord_eq", sources=r"UNSUPPORTED (\w+\.rs: \w+\.rs::(atomic_op|dgr|this|struct)|math/mod\.rs)"), tie2(r"single_dgr_eq|multi_dgr_eq", r"UNSUPPORTED mod\.rs: operator/(single|multi)/mod\.rs::dgr")],
         "suites": [suite("c03", dict(count=800, max_n=5), dict(count=20000, max_n=8))],
         "mismatch_tags": [r"op", r"metadgr", r"metadgr\.(names|acton)"],
         "spec_tags": [r"c03\..*"],
